@@ -1342,7 +1342,8 @@ def judge_svd(chk, case, rep, sim, circuit, u, record):
         d = cmp_dist(obs, exact_full, extra=ploc, slack=slack)
         if d:
             record("mixture-convex-" + ("generic" if rep["superposed"] else "fast"),
-                   f"probs_svd(mixture of {len(members)})[{d[0]}] = {d[1]!r}, the weighted sum of the members gives "
+                   f"probs_svd({{{', '.join(str(build_sv(mb['terms'])) + ': ' + mb['w'] for mb in members[:6])}"
+                   f"{', …' if len(members) > 6 else ''}}})[{d[0]}] = {d[1]!r}, the weighted sum of the members gives "
                    f"{d[2]!r}", spec_ok, prop_convex())
         if tot == 1 and (not core.close(float(r["physical_perf"]), 1.0) or not core.close(float(r["logical_perf"]), 1.0)):
             record("mixture-perf", f"perf ({r['physical_perf']}, {r['logical_perf']}) without any selection", False, True)
